@@ -16,6 +16,7 @@ import (
 	"io"
 	"math/big"
 	"net"
+	"os"
 	"sort"
 	"strings"
 	"sync"
@@ -48,6 +49,7 @@ type scnSpec struct {
 	retry  bool
 	vn     string // none | ok | fail
 	chain  string // short | long
+	zrtt   string // none | accept | reject | reject-params (session resumption with 0-RTT data)
 }
 
 type faultSpec struct {
@@ -120,6 +122,7 @@ type scenario struct {
 	tracing  bool
 	hsDone   bool
 	done     chan struct{}
+	resetCh  chan struct{}
 	cands    []protocol.ConnectionID // destination connection IDs the client has used
 	srvSCIDs [][]byte                // source connection IDs seen in genuine server long-header packets
 	retrySCIDs [][]byte
@@ -330,6 +333,7 @@ func evTxt(ev qlogwriter.Event) string {
 // deliver hands one datagram to the client, waits until the client is quiescent and records what happened.
 func (sc *scenario) deliver(src string, data, orig []byte, intactAll bool) {
 	synctest.Wait() // whatever else woke up at this instant has run to completion: the client is quiescent
+	traced := sc.isTracing()
 	sc.noteConns()
 	sc.noteClientCIDs()
 	conn := sc.ctr.VerifRoute(data)
@@ -435,7 +439,10 @@ func (sc *scenario) deliver(src string, data, orig []byte, intactAll bool) {
 	// only the handshake phase is traced: afterwards duplicate detection forgets old packet numbers (C07)
 	// and the active connection ID moves (C16), which are not inputs of the gate model
 	skip := (conn != nil && d.pre.HandshakeComplete) || (conn == nil && sc.hsDone)
-	if sc.isTracing() && !skip {
+	if os.Getenv("GATE_DEBUG") != "" {
+		fmt.Fprintf(os.Stderr, "deliver %s conn=%d tracing=%v skip=%v hsDone=%v preHC=%v\n", src, d.conn, traced, skip, sc.hsDone, d.pre.HandshakeComplete)
+	}
+	if traced && !skip {
 		sc.trace = append(sc.trace, d)
 	}
 }
@@ -755,6 +762,8 @@ func (sc *scenario) deliverLoop(stopped chan struct{}) {
 				tm.Stop()
 			}
 			return
+		case <-sc.resetCh:
+			sc.hsDone, sc.nGenuine, sc.genuine = false, 0, nil
 		case <-sc.nw.wake:
 		case <-tc:
 		}
@@ -929,13 +938,20 @@ type outcome struct {
 	sleft     int
 	redial    string
 	deadline  string
+	ztxt      string
 	monoNow   int64
 }
 
 func (o *outcome) txt() string {
-	return fmt.Sprintf("dial=%s hang=%s t=%d bound=%d att=%d cv=%d sv=%d calpn=%s salpn=%s c0=%s s0=%s cids=%s acc=%s echo=%s cleft=%d sleft=%d redial=%s",
-		o.dial, boolTxt(o.hang), o.t.Nanoseconds(), o.bound.Nanoseconds(), o.attempts, o.cv, o.sv, o.calpn, o.salpn, boolTxt(o.c0), boolTxt(o.s0), o.cids, o.acc, o.echo, o.cleft, o.sleft, o.redial)
+	z := ""
+	if o.ztxt != "" {
+		z = " " + o.ztxt
+	}
+	return z2(fmt.Sprintf("dial=%s hang=%s t=%d bound=%d att=%d cv=%d sv=%d calpn=%s salpn=%s c0=%s s0=%s cids=%s acc=%s echo=%s cleft=%d sleft=%d redial=%s",
+		o.dial, boolTxt(o.hang), o.t.Nanoseconds(), o.bound.Nanoseconds(), o.attempts, o.cv, o.sv, o.calpn, o.salpn, boolTxt(o.c0), boolTxt(o.s0), o.cids, o.acc, o.echo, o.cleft, o.sleft, o.redial), z)
 }
+
+func z2(a, b string) string { return a + b }
 
 func contains(list [][]byte, b []byte) bool {
 	for _, x := range list {
@@ -969,6 +985,7 @@ func (sc *scenario) run() (out *outcome) {
 	sc.seen = map[int]map[string]bool{}
 	sc.buffered = map[int][]partSum{}
 	sc.done = make(chan struct{})
+	sc.resetCh = make(chan struct{})
 	sc.tracing = true
 	sim := &simnet.Simnet{Router: sc.nw}
 	cpc := sim.NewEndpoint(clientAddr, simnet.NodeBiDiLinkSettings{})
